@@ -138,6 +138,10 @@ pub fn parse_hex_blob(s: &str) -> Result<OwnedValue> {
         bail!("hex string must have even length, got {}", s.len());
     }
 
+    if !s.is_ascii() {
+        bail!("invalid hex string: non-ASCII character in '{}'", s);
+    }
+
     let bytes: Vec<u8> = (0..s.len())
         .step_by(2)
         .map(|i| {
@@ -152,6 +156,10 @@ pub fn parse_hex_blob(s: &str) -> Result<OwnedValue> {
 pub fn parse_binary_blob(s: &str) -> Result<OwnedValue> {
     if s.is_empty() {
         return Ok(OwnedValue::Blob(vec![]));
+    }
+
+    if !s.is_ascii() {
+        bail!("invalid binary string: non-ASCII character in '{}'", s);
     }
 
     let bytes: Vec<u8> = (0..s.len())
@@ -240,6 +248,9 @@ pub fn parse_time(s: &str) -> Result<OwnedValue> {
     let base_micros = (hour as i64 * 3600 + minute as i64 * 60 + second as i64) * 1_000_000;
 
     let fractional_micros: i64 = if let Some(frac) = micros_part {
+        if !frac.is_ascii() {
+            bail!("invalid fractional seconds: '{}'", frac);
+        }
         let padded = format!("{:0<6}", frac);
         let truncated = &padded[..6.min(padded.len())];
         truncated
@@ -348,7 +359,10 @@ impl LiteralParser {
             return Ok(ParsedLiteral::Bool(false));
         }
 
-        if (s.starts_with('\'') && s.ends_with('\'')) || (s.starts_with('"') && s.ends_with('"')) {
+        if s.len() >= 2
+            && ((s.starts_with('\'') && s.ends_with('\''))
+                || (s.starts_with('"') && s.ends_with('"')))
+        {
             let inner = &s[1..s.len() - 1];
             return Ok(ParsedLiteral::Text(inner.to_string()));
         }
@@ -404,8 +418,9 @@ impl LiteralParser {
                 }
             }
             "text" | "varchar" | "char" => {
-                let inner = if (s.starts_with('\'') && s.ends_with('\''))
-                    || (s.starts_with('"') && s.ends_with('"'))
+                let inner = if s.len() >= 2
+                    && ((s.starts_with('\'') && s.ends_with('\''))
+                        || (s.starts_with('"') && s.ends_with('"')))
                 {
                     &s[1..s.len() - 1]
                 } else {
